@@ -1307,7 +1307,7 @@ PRIM_METHODS = {
 CLASS_TRAIT_METHODS = {("min", 1): ("Rs.min", "Rs.Min"), ("max", 1): ("Rs.max", "Rs.Max")}
 # phase 5: associated std functions of the primitives: `i64::from_str` (FromStr), `i64::from_str_radix(_, 16)`
 PRIM_PATHS = {("i64", "from_str"): (1, "Rs.i64_from_str"), ("i64", "from_str_radix"): (2, "Rs.i64_from_str_radix")}
-TRANSLATED_TRAITS = ("TryFrom", "Iterator", "EvalexprInt", "EvalexprFloat", "EvalexprNumericTypes", "IterateVariablesContext")
+TRANSLATED_TRAITS = ("Display", "TryFrom", "Iterator", "EvalexprInt", "EvalexprFloat", "EvalexprNumericTypes", "IterateVariablesContext")
 # free functions / associated functions, by path suffix
 BOUNDARY_PATHS = {
     # (tree-builder extension, after phase 5: `token::tokenize` is no longer a boundary call, it is translated; see FUEL_CALLS)
@@ -1477,6 +1477,7 @@ class World:
         files = ["error/mod.rs", "value/mod.rs", "value/value_type.rs", "operator/mod.rs", "tree/mod.rs", "context/mod.rs",
                  "function/mod.rs", "function/builtin.rs", "value/numeric_types/default_numeric_types.rs",
                  "token/mod.rs", "interface/mod.rs", "tree/iter.rs"]
+        files += ["value/display.rs"]     # phase 7
         for f in files:
             try:
                 fns, enums = parse_items(f)
@@ -1749,6 +1750,8 @@ class FnTr:
             return False
         name = ty.inner.segs[-1][0]
         if name in ("Peekable", "Chars"):
+            return True
+        if name == "Formatter" and self.item.impl_trait == "Display":     # phase 7: see fmt_translate
             return True
         b = self.generic_bound(name)
         return b is not None and "Iterator" in b and "char" in b
@@ -4110,8 +4113,127 @@ class FnTr:
     # =========================================================================== end of the tree-builder extension: methods
 
     # ---- the function
+    # ---- phase 7: `impl Display for T { fn fmt(&self, f: &mut Formatter) -> fmt::Result }`.
+    # The generated function is the text `fmt` appends to the formatter (`T.fmt self : Str`): the body is executed on the state
+    # `out` (the text written so far, initially empty) and the `let mut` locals in scope:
+    #   write!(f, "…{}…", a, …)   ↦ out := Rs.push_str out (<pieces of format!("…{}…", a, …)>)      (never fails: `?` on it is transparent)
+    #   x.fmt(f)                  ↦ out := Rs.push_str out (T.fmt x)        (Lean's type checker demands x : T)
+    #   let mut x = <literal>; x = <literal>;  if <local> {..} else {..};  match <local/self> {..};  for x in <local> {..} (Rs.foldFor over List.attach)
+    # anything else is UNTRANSLATABLE.
+    def fmt_translate(self):
+        it, g = self.item, self.g
+        if len(g.mut_params) != 1 or it.self_kind != "&":
+            self.fail("Display::fmt signature")
+        self.fmt_f, self.fmt_rec, self.nloops = g.mut_params[0], False, 0
+        self.ctx_shadowed = False
+        self.cursors = set()
+        ty = TYPE_MAP[it.impl_type]
+        g.params, g.ret, g.deps = [("self", ty)], "Str", []
+        body = Parser(it.body_toks, it.where).block()
+        self.push(["self"])
+        lines = self.fmt_lines(body, ["out"], 2)
+        self.pop()
+        text = (f"/-- `{it.impl_type}::fmt` (impl Display): the text appended to the formatter — src/{it.file} -/\n"
+                f"def {g.lean_name} (self : {ty}) : Str :=\n  let out := ([] : Str);\n" + "".join(lines) + "  out\n")
+        if self.fmt_rec:
+            if ty != "Value":
+                self.fail("recursive Display::fmt on a type without termination measure")
+            text += "termination_by sizeOf self\ndecreasing_by all_goals (exact Rs.value_lt (by assumption))\n"
+        g.text = text
+
+    @staticmethod
+    def fmt_tup(vars_):
+        return vars_[0] if len(vars_) == 1 else "(" + ", ".join(vars_) + ")"
+
+    def fmt_pure(self, e):
+        n = self.expr(e)
+        if n.eff or n.ctx:
+            self.fail("effectful expression inside Display::fmt")
+        return render(n, 0, False)
+
+    def fmt_chain(self, e, vars_, ind):
+        """`(<lines of e>; <vars>)`: run `e` on the state `vars_`, give the new state"""
+        pad = " " * ind
+        return "(\n" + "".join(self.fmt_lines(e, list(vars_), ind + 2)) + pad + "  " + self.fmt_tup(vars_) + ")"
+
+    def fmt_lines(self, e, vars_, ind):
+        pad = " " * ind
+        tup = self.fmt_tup(vars_)
+        while e.kind == "paren":
+            e = e.e
+        if e.kind == "try":
+            return self.fmt_lines(e.e, vars_, ind)
+        if e.kind == "macro" and e.name == "write":
+            items = split_commas(e.toks)
+            if len(items) < 2 or len(items[0]) != 1 or items[0][0].text != self.fmt_f:
+                self.fail("write! whose destination is not the formatter")
+            piece = self.e_macro(N("macro", name="format", toks=e.toks[2:]))
+            if piece.eff or piece.ctx:
+                self.fail("effectful write! argument")
+            return [f"{pad}let out := Rs.push_str out ({render(piece, 0, False)});\n"]
+        if e.kind == "mcall" and e.name == "fmt" and len(e.args) == 1 and e.args[0].kind == "path" and e.args[0].segs == [self.fmt_f]:
+            self.fmt_rec = True
+            return [f"{pad}let out := Rs.push_str out ({self.g.lean_name} {self.fmt_pure(e.recv)});\n"]
+        if e.kind == "block":
+            out, vs = [], list(vars_)
+            self.push([])
+            for st in e.stmts:
+                if st.kind == "let":
+                    if st.pat.kind == "ppath" and len(st.pat.segs) == 1:
+                        st.pat = N("pident", name=st.pat.segs[0])
+                    if st.pat.kind != "pident" or st.init is None or st.init.kind != "lit" or st.pat.name in vs:
+                        self.fail("`let` in Display::fmt other than `let mut x = <literal>`")
+                    self.frames[-1].append(st.pat.name) if isinstance(self.frames[-1], list) else self.frames[-1].add(st.pat.name)
+                    out.append(f"{pad}let {lname(st.pat.name)} := {self.fmt_pure(st.init)};\n")
+                    vs.append(lname(st.pat.name))
+                elif st.kind == "exprstmt":
+                    out += self.fmt_lines(st.e, vs, ind)
+                else:
+                    self.fail("statement in Display::fmt")
+            if e.tail is not None:
+                out += self.fmt_lines(e.tail, vs, ind)
+            self.pop()
+            return out
+        if e.kind == "assign" and e.op == "=" and e.lhs.kind == "path" and len(e.lhs.segs) == 1 and lname(e.lhs.segs[0]) in vars_[1:] and e.rhs.kind == "lit":
+            return [f"{pad}let {lname(e.lhs.segs[0])} := {self.fmt_pure(e.rhs)};\n"]
+        if e.kind == "if":
+            if e.cond.kind != "path" or e.els is None:
+                self.fail("`if` in Display::fmt whose condition is not a local / without else")
+            return [f"{pad}let {tup} := if {self.fmt_pure(e.cond)} then {self.fmt_chain(e.then, vars_, ind)} else {self.fmt_chain(e.els, vars_, ind)};\n"]
+        if e.kind == "match":
+            if e.scrut.kind != "path" or len(e.scrut.segs) != 1:
+                self.fail("`match` in Display::fmt on something that is not a local")
+            txt = f"{pad}let {tup} := (match {self.fmt_pure(e.scrut)} with\n"
+            for a in e.arms:
+                if a.guard is not None or getattr(a, "cfg", None):
+                    self.fail("guarded / cfg arm in Display::fmt")
+                bound = []
+                ptxt = self.pat(a.pat, bound)
+                self.push(bound)
+                txt += f"{pad}  | {ptxt} => {self.fmt_chain(a.body, vars_, ind + 2)}\n"
+                self.pop()
+            return [txt + f"{pad}  );\n"]
+        if e.kind == "for":
+            itx = e.iter
+            while itx.kind in ("paren", "ref"):
+                itx = itx.e
+            if e.pat.kind == "ppath" and len(e.pat.segs) == 1:
+                e.pat = N("pident", name=e.pat.segs[0])
+            if itx.kind != "path" or len(itx.segs) != 1 or e.pat.kind != "pident":
+                self.fail("`for` in Display::fmt over something that is not a local vector")
+            self.nloops += 1
+            h = f"h_loop{self.nloops}"
+            self.push([e.pat.name])
+            body = self.fmt_chain(e.body, vars_, ind)
+            self.pop()
+            return [f"{pad}let {tup} := Rs.foldFor (List.attach {self.fmt_pure(itx)}) {tup} (fun ⟨{lname(e.pat.name)}, {h}⟩ {tup} => {body});\n"]
+        self.fail("expression of kind `" + e.kind + "` in Display::fmt")
+    # ---- end phase 7
+
     def translate(self):
         it, g = self.item, self.g
+        if it.impl_trait == "Display" and it.name == "fmt":    # phase 7
+            return self.fmt_translate()
         self.ctx_shadowed = False
         p = Parser(it.body_toks, it.where)
         body = p.block()
@@ -4293,6 +4415,7 @@ PHASE6_ROOTS = [("value/mod.rs", "Value", n, None, None) for n in
      for k in ("", "variable_", "read_variable_", "write_variable_", "function_") for m in ("", "_mut")] + [
     ("context/mod.rs", "EmptyContext", "default", "Default", None),
     ("context/mod.rs", "EmptyContextWithBuiltinFunctions", "default", "Default", None),
+    ("value/display.rs", "Value", "fmt", "Display", None),      # phase 7
 ]
 # ---- end phase 6
 SKIPPED_ARMS = []
